@@ -42,6 +42,12 @@ fn usage() -> ! {
 }
 
 fn main() {
+    // threads spawned by libraries (stateright's checker threads) take the default stack size:
+    // exmex' differentiation needs 60-70 kB per nesting level (finding R2), so give them room
+    // (read once by std, before the first thread is spawned)
+    if std::env::var_os("RUST_MIN_STACK").is_none() {
+        std::env::set_var("RUST_MIN_STACK", (256usize << 20).to_string());
+    }
     let mut args: Vec<String> = std::env::args().collect();
     if args.len() < 3 {
         usage();
